@@ -25,6 +25,8 @@ fn merge_map(a: &mut BTreeMap<String, u64>, b: &BTreeMap<String, u64>) {
    }
 }
 
+static BLOCKED: std::sync::atomic::AtomicBool = std::sync::atomic::AtomicBool::new(false);
+
 pub fn run_workers(check: &str, tier: &str, seed: u64, n_cases: u64, jobs: usize, dir: &Path, cap_s: u64) -> Vec<Summary> {
    let exe = std::env::current_exe().unwrap();
    let chunks: Vec<(u64, u64)> = (0..n_cases.div_ceil(CHUNK)).map(|c| (c * CHUNK, ((c + 1) * CHUNK).min(n_cases))).collect();
@@ -59,6 +61,15 @@ pub fn run_workers(check: &str, tier: &str, seed: u64, n_cases: u64, jobs: usize
          match running[i].0.try_wait() {
             Ok(Some(status)) => {
                let (_, out, range) = running.remove(i);
+               if status.code() == Some(4) {
+                  // blocked on a lock the simulator cannot model: Engine A has no verdict; let the caller
+                  // ask Engine B (real threads) before giving up
+                  for (c, _, _) in running.iter_mut() {
+                     let _ = c.kill();
+                  }
+                  BLOCKED.store(true, std::sync::atomic::Ordering::SeqCst);
+                  return vec![];
+               }
                if status.code() == Some(3) {
                   // the worker's wall-clock watchdog fired: one execution never reached a scheduling point
                   let hang = out.with_extension("hang.json");
@@ -153,6 +164,33 @@ pub fn check_main(id: &str, tier: &str) -> ! {
    std::fs::create_dir_all("/verif/evidence").ok();
 
    let sums = run_workers(id, tier, seed, n_cases, jobs, &dir, if thorough { 3 * 3600 } else { 1500 });
+   if BLOCKED.load(std::sync::atomic::Ordering::SeqCst) {
+      // Engine A got stuck on an OS-level lock held across a scheduling point. Engine B runs real
+      // threads and can still decide; without a report from it there is no verdict (exit 2).
+      let known_entries = known::load();
+      match crate::engine_b::run_all(id, thorough, seed, &dir, jobs.min(8)) {
+         Ok(rep) => {
+            for (mut job, out) in rep.reports {
+               let class = out.class.clone().unwrap();
+               if known::matching_miri(&known_entries, id, &class, &out.repo_frame).is_some() {
+                  continue;
+               }
+               let path = PathBuf::from("/verif/replays").join(format!("{}-miri-{}-{}.json", id, job.scenario, job.input_seed));
+               job.violation = Some(crate::case::ViolationInfo { property: id.to_string(), class: class.clone(), detail: out.detail.clone(), trace_hash: 0 });
+               std::fs::write(&path, serde_json::to_string_pretty(&job).unwrap()).unwrap();
+               println!("note: Engine A could not run this tree to completion (a lock of the runtime that the simulator does not model is held across a parallel operation); verdict by Engine B");
+               println!("violation: {}: {}", class, out.detail);
+               println!("VIOLATION property={} replay={}", id, path.display());
+               std::process::exit(1);
+            }
+         },
+         Err(e) => harness_error(&e),
+      }
+      harness_error(&format!(
+         "a worker of {} got blocked on a real (std/OS) lock that a descheduled simulated task holds: the runtime under test holds a lock this simulator does not model across a parallel operation, and Engine B reported nothing; no verdict",
+         id
+      ));
+   }
    let m = merge(&sums);
    let shard_values: BTreeSet<usize> = sums.iter().map(|s| s.shards_lazy).collect();
 
